@@ -60,6 +60,9 @@ func (w *World) execPreload(st *Step, s *Sched) *Violation {
 	if workers <= 0 {
 		workers = 1
 	}
+	// BatchPreload puts freshly decoded slab objects into the cache even for ids that are cached already:
+	// like an eviction it re-materialises slabs, so no handle survives it (DESIGN 3.3)
+	w.Handles = map[int]any{}
 	var err error
 	if s != nil {
 		atree.VerifYield = func(site string, id atree.SlabID) { s.Yield(site + ":" + RegIDOf(id).String()) }
@@ -440,7 +443,11 @@ func init() {
 	}
 
 	judgeWorkers := func(tr *Trace, cv concVariant, agg *Stats) *Violation {
-		base, v := execConc(tr, concVariant{Exec: ExecVariant{Workers: 1}}, NewStats())
+		// the sequential twin: one worker, no controlled schedule, but the same injected failure (its
+		// handling evicts the cache, which may legitimately change compact-map bytes after a reload)
+		bv := cv
+		bv.Exec = ExecVariant{Workers: 1, Seed: cv.Exec.Seed}
+		base, v := execConc(tr, bv, NewStats())
 		if v != nil {
 			return &Violation{Class: "base." + v.Class, Step: v.Step, Msg: v.Msg}
 		}
